@@ -178,11 +178,13 @@ def run(rep: Report) -> None:
     prog = Program()
     resolver = Resolver(prog)
     rep.rule("R08.1", "memo vs mutable state: a memoised function that (transitively) reads a tracked mutable table is "
-             "invalidated (cache_clear) by every function that writes that table, after the write", floor=9)
+             "invalidated (cache_clear) by every function that writes that table, after the write", floor=6)
     rep.rule("R08.2", "only equate and translate write the conversion tables", floor=2)
     rep.rule("R08.3", "per-query state: no mutable default arguments and no module-level scratch containers in conversions", floor=2)
     rep.rule("R08.4", "determinism: no iteration over sets of identity-hashed objects and no id()-dependent ordering on the "
              "conversion path (id-sorted intern keys excepted)", floor=1)
+    rep.rule("R08.6", "no memoised function is keyed by numbers of several types (the result of a query must not depend on the type "
+             "of an earlier query's magnitude)", floor=5)
     rep.rule("R08.5", "objects that are (part of) a memoised result are never mutated in place", floor=1)
     memos = memo_functions(prog)
     # tracked locations: module-level mutable containers of conversions
@@ -307,6 +309,8 @@ def run(rep: Report) -> None:
                 rep.fail("R08.4", f"{f}:id()", f"{f} uses id(): address-dependent behaviour on the conversion path", fi.where(n))
     if n4 == 0:
         rep.ok("R08.4", "conversion-path", note=f"{len(reach.reached)} functions, no set iteration / id()")
+    from ..quantity_rules import check_numeric_memo
+    check_numeric_memo(rep, prog, resolver, "R08.6")
     # R08.5
     t = taint_analysis(prog, resolver, memos)
     for f, node, how in t:
